@@ -92,6 +92,15 @@ def family_cases(rng):
     add("float", "Float", "complex128 +0j", [["complex", v, 0.0] for v in fl], "complex128", [["nan"]], fpay(fl))
     for dt, sent in (("object", [["none"], ["nan"]]), ("str", [["none"], ["nan"]]), ("string", [["NA"]])):
         add("float", "Float", "strings/" + dt, [["str", repr(v)] for v in fl], dt, sent, fpay(fl))
+    # other spellings of a float literal, in the first position and later (leading '.', trailing '.', sign,
+    # exponent, inf): what float() accepts is what the relation must accept
+    for alt, pos in [(a, p) for a in (".5", "5.", "+1.5", "1e-3", "inf", "-inf", "Infinity", "1_0.5", "1E2", "-.5e1")
+                     for p in ("first", "last")]:
+        vals = [repr(v) for v in fl] + ["2.25"]
+        vals = [alt] + vals if pos == "first" else vals + [alt]
+        for dt, sent in (("object", [["none"], ["nan"]]), ("str", [["none"]]), ("string", [["NA"]])):
+            add("float", "Float", "strings alt %s %s/%s" % (alt, pos, dt), [["str", v] for v in vals], dt, sent,
+                fpay([float(v) for v in vals]))
     # booleans
     bl = [rng.random() < 0.5 for _ in range(n)]
     bpay = lambda vs: [["bool", bool(v)] for v in vs]  # noqa
